@@ -118,9 +118,43 @@ def compile_run(ctx, want):
                                    "no_input": True})
         for kk, vv in shape_stats.items():
             hist[f"shape.{kk}"] = hist.get(f"shape.{kk}", 0) + vv
+        # `fcheck <report> hyp=<0|1> lhyp=<0|1>`: the extra tokens say whether the hypothesis `fuseInputOk` of the
+        # total theorem P3R.C03.fuse_passes_check holds on the input of the fusion pass (hyp) and on the lowering's
+        # output (lhyp). They are counted, cross-examined with the report and stripped before the line diff.
+        fstat = {"hyp": 0, "hyp_no": 0, "lhyp": 0, "lhyp_no": 0, "hyp_and_ok": 0, "sites_under_hyp": 0}
         with open(f"{out}/compile.model", "w") as fh:
+            k = -1
             for l in read_lines(f"{out}/compile.model.full"):
+                if l.startswith("prog "):
+                    k += 1
+                if l.startswith("fcheck ") and " hyp=" in l:
+                    toks = l.split()
+                    extra = dict(t.split("=", 1) for t in toks if t.startswith(("hyp=", "lhyp=")))
+                    l = " ".join(t for t in toks if not t.startswith(("hyp=", "lhyp=")))
+                    hyp, lhyp = extra.get("hyp") == "1", extra.get("lhyp") == "1"
+                    fstat["hyp" if hyp else "hyp_no"] += 1
+                    fstat["lhyp" if lhyp else "lhyp_no"] += 1
+                    okrep = l.startswith("fcheck ok ")
+                    if hyp and okrep:
+                        fstat["hyp_and_ok"] += 1
+                        fstat["sites_under_hyp"] += int(l.split()[2])
+                    bad = None
+                    if hyp and not okrep:
+                        bad = "fuseInputOk holds but the certificate check fails (contradicts theorem fuse_passes_check)"
+                    elif not hyp or not lhyp:
+                        bad = ("the real compiler produced an op list outside the hypothesis fuseInputOk of fuse_passes_check "
+                               "(a plain Add/Mul with an intermediate_out) - the total theorem does not cover it")
+                    if bad:
+                        fstat["flagged"] = fstat.get("flagged", 0) + 1
+                    if bad and want == "C03" and fstat["flagged"] <= 3:
+                        violations.append({"class": "fusion-hypothesis",
+                                           "what": f"{bad}: {l!r}",
+                                           "replay": {"correspondence": "fuseInputOk (Model/FusionCheck) on the compiled program",
+                                                      "case_block": cbk[k] if 0 <= k < len(cbk) else []},
+                                           "no_input": True})
                 fh.write(("shape ?" if l.startswith("shape ") else l) + "\n")
+        for kk, vv in fstat.items():
+            hist[f"fusion.{kk}"] = hist.get(f"fusion.{kk}", 0) + vv
         diffs, nb = diff_blocks(f"{out}/compile.impl", f"{out}/compile.model", f"{out}/compile.cases")
         blocks += nb
         disagreements += len(diffs)
@@ -224,7 +258,8 @@ def roles_run(ctx):
 
 CHECKS = {
     "C02": {
-        "lean_modules": ["P3R.Props.C02", "P3R.Props.C02Run", "P3R.Props.C02Denote", "P3R.Props.C02Complete", "P3R.Props.C02Shape", "P3R.Lemmas.BuilderSound"],
+        "lean_modules": ["P3R.Props.C02", "P3R.Props.C02Run", "P3R.Props.C02Denote", "P3R.Props.C02Complete", "P3R.Props.C02Shape", "P3R.Lemmas.BuilderSound",
+                         "P3R.Props.C02LowerTotal", "P3R.Props.C02BuilderOk", "P3R.Witness.C02LowerTotal"],
         "theorems": ["P3R.C02.dedup_rewrite_terminates", "P3R.C02.setW_get", "P3R.C02.setW_mono",
                      "P3R.C02.execAlu_sound",
                      # whole-run soundness: run = ok => every Const/ALU relation holds on the returned witness
@@ -238,7 +273,28 @@ CHECKS = {
                      "P3R.C02.execAlu_ref", "P3R.C02.execOp_ref", "P3R.C02.run_refines_shape", "P3R.C02.run_succeeds_on_every_satisfying_input",
                      # builder rule soundness w.r.t. the denotation of Model/SymCompile (proved for C13, same builder model)
                      "P3R.binv_init", "P3R.defineConst_sound", "P3R.add_sound", "P3R.sub_sound", "P3R.mul_sound",
-                     "P3R.mulAdd_sound"],
+                     "P3R.mulAdd_sound",
+                     # TOTAL lowering theorem: the modelled `lower` passes its certificate (and emits only well-formed ops)
+                     # on every builder state whose connects are valid; fold invariants over the four passes + DSU + backfill
+                     "P3R.C02T.alloc_spec", "P3R.C02T.pass_fold", "P3R.C02T.step_const", "P3R.C02T.step_pub",
+                     "P3R.C02T.step_priv", "P3R.C02T.emitNpCall_spec", "P3R.C02T.step_emit",
+                     "P3R.C02T.ofConnects_spec", "P3R.C02T.backfill_spec", "P3R.C02T.lower_eq",
+                     "P3R.C02T.lower_total_core", "P3R.C02T.lower_passes_check", "P3R.C02T.lower_ops_wf",
+                     # decidable builder invariant `BState.Ok`, preserved by every builder op; reachable => Ok
+                     "P3R.C02T.init_ok", "P3R.C02T.defineConst_res", "P3R.C02T.allocPublic_res", "P3R.C02T.allocPrivate_res",
+                     "P3R.C02T.add_res", "P3R.C02T.sub_res", "P3R.C02T.mul_res", "P3R.C02T.div_res", "P3R.C02T.horner_res",
+                     "P3R.C02T.boolCheck_res", "P3R.C02T.mulAdd_res", "P3R.C02T.connect_ok", "P3R.C02T.assertZero_ok",
+                     "P3R.C02T.assertBool_ok", "P3R.C02T.select_res", "P3R.C02T.mulMany_res", "P3R.C02T.innerProduct_res",
+                     "P3R.C02T.expPow2_res", "P3R.C02T.pushNp_ok", "P3R.C02T.reconstructBits_res",
+                     "P3R.C02T.decomposeToBits_ok", "P3R.C02T.Reachable.ok",
+                     "P3R.BState.Ok.connectsOk", "P3R.BState.Ok.dagOk",
+                     # total statements (no per-program lowering certificate)
+                     "P3R.C02T.lower_passes_check_ok", "P3R.C02T.lower_sound_total", "P3R.C02T.lower_sound_reachable",
+                     "P3R.C02T.run_values_denote_lower_total",
+                     # necessity of `connectsOk` + non-vacuity
+                     "P3R.Witness.C02LowerTotal.connect_out_of_range_fails", "P3R.Witness.C02LowerTotal.connect_two_calls_fails",
+                     "P3R.Witness.C02LowerTotal.connect_call_with_value_ok", "P3R.Witness.C02LowerTotal.reachable_example",
+                     "P3R.Witness.C02LowerTotal.lower_example_ok", "P3R.Witness.C02LowerTotal.ok_example_decide"],
         "run": lambda ctx: compile_run(ctx, "C02"),
         "trusted_base": ["executable prime-field instances PF p of the driver (validated against p3-field by the runs)"],
         "assumptions": ["zero divisors: no guarantee is checked when some divisor evaluates to 0 (as the property states)"],
@@ -261,10 +317,15 @@ CHECKS = {
         "assumptions": ["extension degree D and lane count do not enter the role logic (indices are scaled by D, lanes only reshape rows); runs use D=1, lanes 1..3"],
     },
     "C03": {
-        "lean_modules": ["P3R.Props.C03", "P3R.Props.C03Dedup", "P3R.Props.C03Fusion", "P3R.Props.C03Lower", "P3R.Props.C03Chain"],
+        "lean_modules": ["P3R.Props.C03", "P3R.Props.C03Dedup", "P3R.Props.C03Fusion", "P3R.Props.C03FusionTotal", "P3R.Witness.C03FusionTotal", "P3R.Props.C03LowerShape", "P3R.Props.C03Lower", "P3R.Props.C03Chain"],
         "theorems": ["P3R.C03.dedup_key_sound", "P3R.C03.rewrite_holds", "P3R.C03.fusion_sound",
                      "P3R.C03.fusion_complete", "P3R.C03.dedup_sat_back", "P3R.C03.holds_congr_relSlots",
-                     "P3R.C03.fusion_check_sound", "P3R.C03.node_ok_sound", "P3R.C03.lower_check_sound", "P3R.C03.opWF_sound", "P3R.C03.compile_chain_sound"],
+                     "P3R.C03.fusion_check_sound", "P3R.C03.node_ok_sound", "P3R.C03.lower_check_sound", "P3R.C03.opWF_sound", "P3R.C03.compile_chain_sound",
+                     "P3R.C03.new_props", "P3R.C03.candidates_ok", "P3R.C03.chosenFor_ok", "P3R.C03.sep_orig", "P3R.C03.sep_fused",
+                     "P3R.C03.fuse_check_c1", "P3R.C03.fuse_check_c2", "P3R.C03.fuse_check_c3", "P3R.C03.fuse_check_c4",
+                     "P3R.C03.fuse_check_c5", "P3R.C03.fuse_passes_check", "P3R.C03.fuse_sound_total",
+                     "P3R.C03.optimize_fusion_sound", "P3R.C03.dedup_preserves_shape",
+                     "P3R.C03.lower_shape", "P3R.C03.compile_fusion_total", "P3R.C03.compile_chain_sound_total"],
         "run": lambda ctx: compile_run(ctx, "C03"),
         "trusted_base": [],
         "assumptions": [],
